@@ -841,6 +841,7 @@ def write_evidence(prop, tier, seed, sel, results, violations, known_hits, broke
         info = propinfo.INFO.get(prop, {})
     except Exception:
         info = {}
+    WHAT = {h["name"]: h.get("what", "") for h in sel}
     n_ok = sum(1 for r in results if r["verdict"] == "SUCCESS")
     props_total = sum(r.get("properties", 0) for r in results)
     samples = []
@@ -865,7 +866,7 @@ def write_evidence(prop, tier, seed, sel, results, violations, known_hits, broke
             functions_encoded=info.get("functions", []),
             bounds=info.get("bounds", ""),
             outside_claim=info.get("outside", ""),
-            harnesses=[dict(name=r["name"], verdict=r["verdict"], kind=r["kind"], unwind=r["unwind"],
+            harnesses=[dict(name=r["name"], what=WHAT.get(r["name"], ""), verdict=r["verdict"], kind=r["kind"], unwind=r["unwind"],
                             unwindset=r["unwindset"], stubs=r["stubs"], properties=r.get("properties"),
                             symex_s=r.get("symex_s"), solver_s=r.get("solver_s"), wall_s=r.get("wall_s"),
                             detail=r.get("detail") or r.get("failed_desc"), cex=r.get("cex_values"),
